@@ -44,6 +44,10 @@ class Engine:
         self.ctx_count: Dict[Tuple[str, str], int] = {}
         self.unresolved: Set[str] = set()
         self.caught: Set[Tuple[str, str]] = set()
+        self.stable: Set[Tuple] = set()
+        self.reduce_sites: Dict[Tuple[str, int], Set[str]] = {}
+        self._gen_cache: Dict[int, bool] = {}
+        self.novisit = False  # local mode: visiting a sub-tree contributes no effects
         self.functions_analysed: Set[str] = set()
         self._cls_cache: Dict[str, Optional[Tuple[str, ast.ClassDef]]] = {}
 
@@ -89,6 +93,8 @@ class Engine:
             self.changed = False
             res = thunk()
             if not self.changed:
+                # converged: everything computed in this round is final
+                self.stable.update(k for k, r in self.done_round.items() if r == self.round)
                 return res
         raise AnalysisError("effect analysis did not converge in 40 rounds")
 
@@ -110,7 +116,7 @@ class Engine:
                 key = (cv.key(), ("merged",) + tuple(a.key() for a in args))
             else:
                 self.ctx_count[fid] = n + 1
-        if self.done_round.get(key) == self.round:
+        if key in self.stable or self.done_round.get(key) == self.round:
             return self.memo.get(key, (FS(), STRUCT))
         combos = self.split_args(cv, args) if not _sub else None
         if combos is not None:
